@@ -214,7 +214,8 @@ class NuclideXSMetadata(FileMetadata):
             skippedKeys.add("fileWideChiFlag")
             mergedData["chi"] = None
             for nuc in [nn for nn in selfContainer.nuclides + otherContainer.nuclides]:
-                if nuc.isotxsMetadata["fisFlag"] > 0:
+                # a nuclide without ISOTXS data (gamma or production data only) has no fission flag
+                if (nuc.isotxsMetadata["fisFlag"] or 0) > 0:
                     nuc.isotxsMetadata["chiFlag"] = 1
         return skippedKeys
 
